@@ -819,6 +819,11 @@ def _parse_node_for_arg(_required, action, choices, node, typ):
         )
         if len(maybe_choices) == len(node.elts):
             choices = maybe_choices
+    elif isinstance(node, Subscript) and getattr(node.value, "id", None) == "Literal":
+        # `Literal['only']`: one member, so the slice is the constant itself rather than a `Tuple`
+        member = node.slice if PY_GTE_3_9 else getattr(node.slice, "value", None)
+        if isinstance(member, (Constant, Str)):
+            choices = (get_value(member),)
     elif isinstance(node, Name):
         if node.id == "Optional":
             _required = False
